@@ -86,6 +86,7 @@ fn oracle(s: &ProgScene<X>, t: &Trace) -> Vec<Violation> {
 
     // (A) alive while a strong handle exists and nobody stopped it
     if let (Some(se), false) = (stopped_enter, stop_requested) {
+        crate::check::oblige("strong-keeps-alive");
         let n = strong_at(se);
         if n > 0 {
             out.push(Violation {
@@ -99,6 +100,7 @@ fn oracle(s: &ProgScene<X>, t: &Trace) -> Vec<Violation> {
     // (the horizon of 40 ticks is ample: all clients are done by t=5 and at most a handful of
     // 2-tick handlers are still queued then, so a run cut at the horizon has had its chance)
     if last_drop.is_some() && !stop_requested {
+        crate::check::oblige("last-drop-terminates");
         match term {
             Some((_, false)) if stopped_enter.is_some() => {}
             _ => out.push(Violation {
@@ -123,6 +125,7 @@ fn oracle(s: &ProgScene<X>, t: &Trace) -> Vec<Violation> {
     // (B') a force-sending timer cannot deliver once no strong handle is left: with instant
     // handlers a tick is handled at the virtual instant it was sent
     if let (true, Some(ld), false) = (s.extra.instant_ticks, last_drop, stop_requested) {
+        crate::check::oblige("timers-do-not-keep-alive");
         let drop_time = t.log[ld].time;
         if let Some(e) = an.enters.iter().find(|e| e.a == 0 && matches!(e.cb, Cb::Tick { .. }) && e.time > drop_time) {
             out.push(Violation {
@@ -151,6 +154,7 @@ fn oracle(s: &ProgScene<X>, t: &Trace) -> Vec<Violation> {
         }
         if let Some(ld) = last_drop {
             if o.begin > ld {
+                crate::check::oblige("upgrade-after-last-drop");
                 if some && !s.extra.temporaries {
                     out.push(Violation {
                         clause: "upgrade-fails-without-strong",
@@ -348,6 +352,7 @@ pub fn property() -> Property {
     Property {
         id: "C05",
         cases,
+        clauses: &["strong-keeps-alive", "last-drop-terminates", "upgrade-after-last-drop", "timers-do-not-keep-alive"],
         assumptions: &[
             "strong handles are tracked on the harness side: created at the end of the creating operation, gone from the begin of the dropping one (conservative in both directions)",
             "in scenes with timers or a broker subscription hannibal itself holds short-lived strong temporaries (a timer's parked try_send, the broker's fan-out); there only 'upgrade never succeeds again after it failed' is required",
